@@ -1,6 +1,6 @@
 /-
 C25 — model of `BrushConstraint2D._generator` (objects/device/parameters/discretization.py) and of
-`dilate_jax` (binary_transform.py) for odd-sized brushes.
+`dilate_jax` (binary_transform.py) for odd-sized brushes, and of `circular_brush` (`circularBrush`, rational diameter).
 
   dilate_jax(img, brush)  : `dil` — `convolve2d(img, brush, mode="same", boundary="fill") != 0`:
                             out[i][j] = ∃ (a,b) with brush[a][b] and img[i + c - a][j + c - b], c = (size-1)/2
@@ -41,6 +41,17 @@ structure Brush where
   cells : Tab
 
 def Brush.size (b : Brush) : Nat := 2 * b.c + 1
+
+/-- squared distance |a - c|² with truncated subtraction (one of the two terms is zero) -/
+def sqd (a c : Nat) : Nat := (a - c) * (a - c) + (c - a) * (c - a)
+
+/-- `circular_brush(diameter = p/q)`: size = ceil(diameter) rounded up to the next odd number, cell (a, b) is set iff its
+distance to the centre is ≤ diameter/2, i.e. 4·q²·dist² ≤ p² (exact; the code compares `sqrt(dist²) <= diameter / 2`) -/
+def circularBrush (p q : Nat) : Brush :=
+  let s0 := (p + q - 1) / q
+  let s := if s0 % 2 = 0 then s0 + 1 else s0
+  let c := (s - 1) / 2
+  ⟨c, tab ⟨2 * c + 1, 2 * c + 1⟩ fun a b => decide (4 * q * q * (sqd a c + sqd b c) ≤ p * p)⟩
 
 /-- `dilate_jax` on the function view (img is false outside the domain) -/
 def dilI (b : Brush) (img : Img) : Img := fun i j =>
@@ -190,6 +201,7 @@ def ofBits (d : Dims) (bs : Array Bool) : Tab := tab d fun i j => bs.getD (i * d
       → `status iters solidbits touchS touchV allGood cases…` | `error` (convolve2d raises: one axis shorter, one longer than
         the brush) | `unsupported` (design not larger than the brush in any axis)
   `dil h w bsize brushbits imgbits`          → dilated bits
+  `brush p q`                                → `size bits` of circular_brush(p/q)
 -/
 def handle : List String → String
   | "gen" :: h :: w :: bs :: bbits :: vals =>
@@ -204,6 +216,13 @@ def handle : List String → String
       let (o, sol) := generator d br (fun x : Float => -x) (fun n => va.getD n 0.0)
       s!"{o.status} {o.iters} {toBits d sol} {toBits d o.st.s} {toBits d o.st.v} {if o.allGood then 1 else 0} {showNats o.cases}"
     | _, _, _ => "bad-op"
+  | ["brush", p, q] =>
+    match natsOf [p, q] with
+    | some [p, q] =>
+      if q = 0 then "bad-op" else
+      let br := circularBrush p q
+      s!"{br.size} {toBits ⟨br.size, br.size⟩ br.cells}"
+    | _ => "bad-op"
   | ["dil", h, w, bs, bbits, ibits] =>
     match natsOf [h, w, bs], bitsOf bbits, bitsOf ibits with
     | some [h, w, bs], some bb, some ib =>
